@@ -385,7 +385,7 @@ fn core2(prefix: &str, sa: &[Op], ra: &[Op], ka: usize, kb: usize, caps: &[Cap],
 
 /// preemption bound for programs with more than one op per thread
 fn pb2(thorough: bool) -> Option<u8> {
-    Some(if thorough { 5 } else { 3 })
+    Some(if thorough { 6 } else { 3 })
 }
 /// preemption bound for programs with 3+ threads
 fn pb3(thorough: bool) -> Option<u8> {
@@ -891,6 +891,37 @@ fn c06(thorough: bool) -> Suite {
         &[env(2, 1, None, pb2(thorough)), env(2, 1, Some(1), pb2(thorough))],
         false,
     ));
+    if thorough {
+        // every blocking op twice per thread, all flavours, spurious parks
+        ps.extend(product(
+            "c06-22-full",
+            &[
+                seqs(&[Op::Send, Op::SendT(3), Op::SendRepoll, Op::Close(Side::S)], 2),
+                seqs(&[Op::Recv, Op::RecvT(3), Op::RecvRepoll, Op::Next], 2),
+            ],
+            &[Cap::B(0), Cap::B(1)],
+            &[Class::L],
+            &[vec![(S, S), (S, S)], vec![(A, A), (A, A)], vec![(S, S), (A, A)]],
+            &[(S, Conv::Clone)],
+            &[env(2, 1, None, Some(4)), env(1, 1, Some(1), Some(4)), env(2, 2, Some(0), Some(4))],
+            false,
+        ));
+        ps.extend(product(
+            "c06-4thr",
+            &[
+                seqs(&[Op::Send, Op::SendT(2)], 1),
+                seqs(&[Op::Send, Op::SendRepoll], 1),
+                seqs(&[Op::Recv, Op::RecvRepoll], 1),
+                seqs(&[Op::Recv, Op::Close(Side::R), Op::Len(Side::R)], 1),
+            ],
+            &[Cap::B(0), Cap::B(1)],
+            &[Class::L],
+            &sync_only(4),
+            &[(S, Conv::Clone)],
+            &[env(2, 1, None, Some(2)), env(2, 1, Some(0), Some(2))],
+            false,
+        ));
+    }
     // stream across several waits
     ps.extend(product(
         "c06-stream",
@@ -1378,7 +1409,7 @@ fn c12(thorough: bool) -> Suite {
         Op::SCount(Side::R),
         Op::Close(Side::R),
     ];
-    let n = if thorough { 3 } else { 2 };
+    let n = 2;
     let valid = |ops: &Vec<Op>, side: Side| {
         // never drop the last handle and then use it
         let mut depth = 1i32;
@@ -1403,12 +1434,28 @@ fn c12(thorough: bool) -> Suite {
         &[Class::P],
         &[vec![(S, S), (S, S)], vec![(A, A), (S, S)]],
         &[(S, Conv::Clone)],
-        &[env(2, 1, None, pb2(thorough))],
+        &[env(2, 1, None, if thorough { UNB } else { pb2(thorough) })],
         false,
     ));
+    if thorough {
+        // three threads cloning, dropping and closing concurrently
+        let one_s: Vec<Vec<Op>> = seqs(&hs, 1).into_iter().filter(|o| valid(o, Side::S)).collect();
+        let one_r: Vec<Vec<Op>> = seqs(&hr, 1).into_iter().filter(|o| valid(o, Side::R)).collect();
+        let two_s: Vec<Vec<Op>> = seqs(&hs, 2).into_iter().filter(|o| valid(o, Side::S)).collect();
+        ps.extend(product(
+            "c12-conc3",
+            &[two_s, one_s, one_r],
+            &[Cap::B(1)],
+            &[Class::P],
+            &sync_only(3),
+            &[(S, Conv::Clone)],
+            &[env(2, 1, None, Some(3))],
+            false,
+        ));
+    }
     Suite {
-        cfg: cfg(&[Oracle::Counts, Oracle::Outcome], &[], false, false),
-        rule: "concurrent clone / clone_sync / clone_async / to_sync / to_async / drop / close with sender_count() / receiver_count() observed at any point, 2 threads x <=2 (thorough 3) ops; every observed count must be a count of the reference model under some interleaving (ledger of live handles; 0 after close, never revived)".into(),
+        cfg: cfg(&[Oracle::Counts, Oracle::Outcome, Oracle::Linear], &[], false, false),
+        rule: "concurrent clone / clone_sync / clone_async / to_sync / to_async / drop / close with sender_count() / receiver_count() observed at any point, 2 threads x <=2 ops (thorough: every schedule, plus 3 threads); every observed count must be a count of the reference model under some interleaving (ledger of live handles; 0 after close, never revived)".into(),
         programs: ps,
     }
 }
@@ -1885,6 +1932,36 @@ fn c19(thorough: bool) -> Suite {
         &[env(2, 1, None, pb3(thorough))],
         false,
     ));
+    if thorough {
+        ps.extend(product(
+            "c19-race3",
+            &[
+                seqs(&[Op::Send, Op::TrySend, Op::SendT(2), Op::SendRepoll], 3),
+                vs.iter().flat_map(|v| vec![vec![Op::Drain(*v), Op::Drain(VecState::Spare)], vec![Op::TryRecv, Op::Drain(*v), Op::Drain(*v)]]).collect(),
+            ],
+            &CAPS4,
+            &[Class::DL],
+            &[vec![(S, S), (S, S)], vec![(A, A), (A, A)]],
+            &[(S, Conv::Clone)],
+            &[env(2, 1, None, Some(5))],
+            false,
+        ));
+        ps.extend(product(
+            "c19-4thr",
+            &[
+                seqs(&[Op::Send, Op::TrySend], 1),
+                seqs(&[Op::Send, Op::SendT(1)], 1),
+                seqs(&[Op::Send, Op::SendRepoll], 1),
+                vec![vec![Op::Drain(VecState::Spare), Op::Drain(VecState::Empty)], vec![Op::Drain(VecState::Prefilled), Op::Recv]],
+            ],
+            &[Cap::B(0), Cap::B(1), Cap::B(2)],
+            &[Class::DL],
+            &sync_only(4),
+            &[(S, Conv::Clone)],
+            &[env(2, 1, None, Some(2))],
+            false,
+        ));
+    }
     let mut k = STUCK.to_vec();
     k.push(Kind::NoWait);
     Suite {
@@ -1937,6 +2014,16 @@ fn c17(thorough: bool) -> Suite {
                 &[Cap::B(0)],
                 &[Class::P],
                 &sync_only(3),
+                &[(S, Conv::Clone)],
+                &[env(par, 1, None, Some(3))],
+                false,
+            ));
+            ps.extend(product(
+                "c17-4-deep",
+                &[roles.clone(), single.clone(), single.clone(), single.clone()],
+                &[Cap::B(0)],
+                &[Class::P],
+                &sync_only(4),
                 &[(S, Conv::Clone)],
                 &[env(par, 1, None, Some(3))],
                 false,
